@@ -1,72 +1,9 @@
-(* Proofs about Model/BckModel.v: tables pinned to Golden, reply well-formedness, ledger invariant,
-   acquisition state machine, MISTRAL guards, framing, read-back, queries.  (C19 and backend parts.) *)
-From DS Require Import Base.Prelude Model.BckModel Model.BckGolden Spec.BckGrammarSpec Proofs.BckGrammar.
-From DS Require Gen.BckTables.
+(* Proofs about Model/BckModel.v: reply well-formedness, ledger invariant, acquisition state machine,
+   MISTRAL guards, framing, read-back, queries.  (C19 and the backend parts of C02-C05, C07.) *)
+From DS Require Import Base.Prelude Model.BckModel Spec.BckGrammarSpec Proofs.BckGrammar.
 From Coq Require Import String Ascii DecimalString Permutation.
 
 Arguments zs : simpl never.
-
-(* ------------------------------------------------------------------------------------------ *)
-(* (A) generated tables = Golden; the model's own tables = generated tables *)
-
-Lemma tables_pinned :
-  BckTables.type_re = BckGolden.type_re /\ BckTables.name_re = BckGolden.name_re /\
-  BckTables.code_re = BckGolden.code_re /\ BckTables.arguments_re = BckGolden.arguments_re /\
-  BckTables.linefeed_re = BckGolden.linefeed_re /\ BckTables.request_re = BckGolden.request_re /\
-  BckTables.reply_re = BckGolden.reply_re /\
-  BckTables.k_REQUEST = BckGolden.k_REQUEST /\ BckTables.k_REPLY = BckGolden.k_REPLY /\
-  BckTables.k_TAIL = BckGolden.k_TAIL /\ BckTables.k_SEPARATOR = BckGolden.k_SEPARATOR /\
-  BckTables.k_OK = BckGolden.k_OK /\ BckTables.k_FAIL = BckGolden.k_FAIL /\
-  BckTables.k_INVALID = BckGolden.k_INVALID /\
-  BckTables.commands_generic = BckGolden.commands_generic /\
-  BckTables.commands_sardara = BckGolden.commands_sardara /\
-  BckTables.commands_mistral = BckGolden.commands_mistral /\
-  BckTables.protocol_version = BckGolden.protocol_version /\
-  BckTables.setup_time = BckGolden.setup_time /\ BckTables.sweep_time = BckGolden.sweep_time /\
-  BckTables.acs_to_unix_time = BckGolden.acs_to_unix_time /\
-  BckTables.valid_conf_generic = BckGolden.valid_conf_generic /\
-  BckTables.valid_conf_sardara = BckGolden.valid_conf_sardara /\
-  BckTables.valid_conf_mistral = BckGolden.valid_conf_mistral /\
-  (BckTables.max_sections_generic, BckTables.max_sections_sardara, BckTables.max_sections_mistral)
-    = (BckGolden.max_sections_generic, BckGolden.max_sections_sardara, BckGolden.max_sections_mistral) /\
-  (BckTables.max_bandwidth_generic, BckTables.max_bandwidth_sardara, BckTables.max_bandwidth_mistral)
-    = (BckGolden.max_bandwidth_generic, BckGolden.max_bandwidth_sardara, BckGolden.max_bandwidth_mistral) /\
-  (BckTables.initial_configuration_generic, BckTables.initial_configuration_sardara,
-   BckTables.initial_configuration_mistral, BckTables.initial_filename_generic,
-   BckTables.initial_filename_sardara, BckTables.initial_filename_mistral)
-    = (BckGolden.initial_configuration_generic, BckGolden.initial_configuration_sardara,
-       BckGolden.initial_configuration_mistral, BckGolden.initial_filename_generic,
-       BckGolden.initial_filename_sardara, BckGolden.initial_filename_mistral) /\
-  (BckTables.initial_integration_generic, BckTables.initial_integration_sardara,
-   BckTables.initial_integration_mistral)
-    = (BckGolden.initial_integration_generic, BckGolden.initial_integration_sardara,
-       BckGolden.initial_integration_mistral) /\
-  (BckTables.status_string_generic, BckTables.status_string_sardara, BckTables.status_string_mistral)
-    = (BckGolden.status_string_generic, BckGolden.status_string_sardara, BckGolden.status_string_mistral) /\
-  BckTables.servers = BckGolden.servers /\
-  BckTables.timer_creation_sites = BckGolden.timer_creation_sites /\
-  BckTables.timer_cancel_sites = BckGolden.timer_cancel_sites /\
-  BckTables.timer_join_sites = BckGolden.timer_join_sites.
-Proof. repeat split; vm_compute; reflexivity. Qed.
-
-Definition named (t : list (list Z * cmd)) : list (list Z * list Z) :=
-  map (fun p => (fst p, handler_name (snd p))) t.
-
-(* the dispatch tables, constants and literals the model is written with are those of the source *)
-Lemma model_tables :
-  named BckModel.commands_generic = BckTables.commands_generic /\
-  named BckModel.commands_generic = BckTables.commands_sardara /\
-  named BckModel.commands_mistral = BckTables.commands_mistral /\
-  BckModel.protocol_version = BckTables.protocol_version /\
-  BckModel.setup_time_s = BckTables.setup_time /\ BckModel.sweep_time_s = BckTables.sweep_time /\
-  BckModel.max_sections = BckTables.max_sections_generic /\
-  BckModel.max_bandwidth = BckTables.max_bandwidth_generic /\
-  BckModel.unconfigured = BckTables.initial_configuration_generic /\
-  [33] = BckTables.k_REPLY /\ [63] = BckTables.k_REQUEST /\ [13; 10] = BckTables.k_TAIL /\
-  [44] = BckTables.k_SEPARATOR /\
-  c_ok = BckTables.k_OK /\ c_fail = BckTables.k_FAIL /\ c_invalid = BckTables.k_INVALID /\
-  codes = [BckTables.k_OK; BckTables.k_FAIL; BckTables.k_INVALID].
-Proof. repeat split; vm_compute; reflexivity. Qed.
 
 (* ------------------------------------------------------------------------------------------ *)
 (* (B) every reply is a line of the reply grammar *)
@@ -298,7 +235,7 @@ Qed.
 
 (* C19 (one reply, grammar, echo): what _parse answers to one line, in any state *)
 Theorem parse_line_reply o v s line s' x :
-  oracle_clean o -> RInv s -> parse_line o v s line = (s', x) ->
+  oracle_clean o -> RInv s -> head_ok line -> parse_line o v s line = (s', x) ->
   RInv s' /\
   match parse_message line with
   | PMRep _ _ _ => x = OTrue /\ s' = s
@@ -307,16 +244,13 @@ Theorem parse_line_reply o v s line s' x :
   | _ => exists r oa, x = OReply r /\ reply_line r undefined_name code_invalid oa /\ s' = s
   end.
 Proof.
-  intros Ho Hr H. unfold parse_line in H.
+  intros Ho Hr Hhd H. unfold parse_line in H.
   destruct (parse_message line) as [|c| |name args|name code args] eqn:Hpm.
   - injection H as <- <-. split; [assumption|].
     destruct (syntax_reply_wf (zs "empty message is not valid")) as [oa Hoa]; [lit|]. eauto.
   - injection H as <- <-. split; [assumption|].
     destruct (syntax_reply_wf (quote (zs "invalid message type ") [c])) as [oa Hoa]; [|eauto].
     apply quote_clean; [lit|].
-    (* the offending character is the first of a stripped... any line: it may be CR or LF only if the line
-       starts with one; parse_line is only ever called on stripped lines, but the reply is a grammar line
-       only when the character is not CR / LF: handled by the caller; here we need it *)
     constructor; [|constructor].
     destruct line as [|t body]; [discriminate|]. unfold parse_message in Hpm.
     destruct (t =? 33); [destruct (parse_name body) as [[? [|? ?]]|]; try discriminate;
@@ -324,8 +258,7 @@ Proof.
                          destruct (parse_code codes _) as [[? ?]|]; discriminate|].
     destruct (t =? 63); [destruct (parse_name body) as [[? ?]|]; try discriminate;
                          destruct (parse_optargs _); discriminate|].
-    injection Hpm as <-.
-    admit.
+    injection Hpm as <-. exact Hhd.
   - injection H as <- <-. split; [assumption|].
     destruct (syntax_reply_wf (zs "invalid syntax")) as [oa Hoa]; [lit|]. eauto.
   - destruct (parse_message_request_wf _ _ _ Hpm) as [Hn Ha].
@@ -352,4 +285,1443 @@ Proof.
            unfold namech, alpha in Hr0. unfold not_crlf, is_crlf. lia.
       * unfold c_fail. rewrite zs_fail. auto.
   - injection H as <- <-. auto.
-Admitted.
+Qed.
+
+(* ------------------------------------------------------------------------------------------ *)
+(* (C) the timer ledger: every live timer is the one its attribute refers to *)
+
+Definition slot (s : st) (k : tkind) : option Z :=
+  match k with
+  | KStart => startID s | KStop => stopID s | KSetup => setupID s
+  | KTarget => targetID s | KVna => vnaID s
+  end.
+Definition set_slot (s : st) (k : tkind) (x : option Z) : st :=
+  match k with
+  | KStart => set_startID s x | KStop => set_stopID s x | KSetup => set_setupID s x
+  | KTarget => set_targetID s x | KVna => set_vnaID s x
+  end.
+(* the task flag that guards the creation of a timer of that kind *)
+Definition runflag (s : st) (k : tkind) : bool :=
+  match k with
+  | KSetup => rsetup s | KTarget => rtarget s | KVna => rvna s
+  | _ => true
+  end.
+Definition generic_kind (k : tkind) : Prop := k = KStart \/ k = KStop.
+
+Record LInv (v : variant) (s : st) : Prop := mkLInv {
+  li_slot : forall tm, In tm (timers s) -> slot s (t_kind tm) = Some (t_id tm);
+  li_fresh : forall tm, In tm (timers s) -> t_id tm < next_id s;
+  li_nodup : NoDup (map t_id (timers s));
+  li_flag : forall tm, In tm (timers s) -> runflag s (t_kind tm) = true;
+  li_variant : v <> VMistral -> forall tm, In tm (timers s) -> generic_kind (t_kind tm)
+}.
+
+Lemma LInv_init v t0 : LInv v (init t0).
+Proof.
+  split; cbn.
+  - intros tm [].
+  - intros tm [].
+  - constructor.
+  - intros tm [].
+  - intros _ tm [].
+Qed.
+
+Lemma LInv_ext v s s' :
+  timers s' = timers s -> next_id s' = next_id s -> (forall k, slot s' k = slot s k) ->
+  (forall k, runflag s' k = runflag s k) -> LInv v s -> LInv v s'.
+Proof.
+  intros Ht Hn Hs Hf [I1 I2 I3 I4 I5]. split; rewrite ?Ht, ?Hn; intros; rewrite ?Hs, ?Hf; auto.
+Qed.
+
+Ltac ext_tac :=
+  repeat match goal with
+         | |- LInv ?v (?f ?s ?x) =>
+           apply (LInv_ext v s (f s x)); [reflexivity|reflexivity|intros []; reflexivity|intros []; reflexivity|]
+         end.
+
+(* cancel *)
+Lemma cancel_id_timers s i tm :
+  In tm (timers (cancel_id s i)) <-> In tm (timers s) /\ i <> Some (t_id tm).
+Proof.
+  destruct i as [k|]; cbn.
+  - rewrite filter_In. split.
+    + intros [H1 H2]. split; [assumption|]. intros E. injection E as ->. rewrite Z.eqb_refl in H2. discriminate.
+    + intros [H1 H2]. split; [assumption|]. destruct (t_id tm =? k) eqn:E; [|reflexivity].
+      apply Z.eqb_eq in E. subst. congruence.
+  - split; [intros H; split; [assumption|discriminate]|tauto].
+Qed.
+
+Lemma cancel_id_proj s i :
+  next_id (cancel_id s i) = next_id s /\ (forall k, slot (cancel_id s i) k = slot s k) /\
+  (forall k, runflag (cancel_id s i) k = runflag s k) /\
+  acq (cancel_id s i) = acq s /\ now (cancel_id s i) = now s /\ rbuf (cancel_id s i) = rbuf s /\
+  conf (cancel_id s i) = conf s /\ fname (cancel_id s i) = fname s /\ integ (cancel_id s i) = integ s /\
+  failure (cancel_id s i) = failure s /\ ready (cancel_id s i) = ready s.
+Proof. destruct i; cbn; repeat split; intros []; reflexivity. Qed.
+
+Lemma NoDup_map_filter {A} (f : A -> Z) p (l : list A) : NoDup (map f l) -> NoDup (map f (filter p l)).
+Proof.
+  induction l as [|x l IH]; cbn; [auto|]. intros H. inversion H; subst.
+  destruct (p x); cbn; [constructor; auto|auto].
+  intros Hin. apply H2. apply in_map_iff in Hin. destruct Hin as (y & Hy & Hin).
+  apply filter_In in Hin. apply in_map_iff. exists y. tauto.
+Qed.
+
+Lemma LInv_cancel v s i : LInv v s -> LInv v (cancel_id s i).
+Proof.
+  intros [I1 I2 I3 I4 I5]. destruct (cancel_id_proj s i) as (Hn & Hs & Hf & _).
+  split.
+  - intros tm H. apply cancel_id_timers in H. rewrite Hs. apply I1. tauto.
+  - intros tm H. apply cancel_id_timers in H. rewrite Hn. apply I2. tauto.
+  - destruct i; cbn; [apply NoDup_map_filter|]; assumption.
+  - intros tm H. apply cancel_id_timers in H. rewrite Hf. apply I4. tauto.
+  - intros Hv tm H. apply cancel_id_timers in H. apply I5; tauto.
+Qed.
+
+(* cancelling through the attribute of a kind leaves no live timer of that kind *)
+Lemma cancel_slot_none v s k tm :
+  LInv v s -> In tm (timers (cancel_id s (slot s k))) -> t_kind tm <> k.
+Proof.
+  intros I H. apply cancel_id_timers in H. destruct H as [H1 H2]. intros E. subst k.
+  apply H2. apply (li_slot v s I). assumption.
+Qed.
+
+(* create: Timer(...).start() stored in the attribute of its kind *)
+Definition create (s : st) (k : tkind) (due : Z) : st :=
+  let (s1, i) := new_timer s k due in set_slot s1 k (Some i).
+
+Lemma create_proj s k due :
+  timers (create s k due) = timers s ++ [mkTimer k due (next_id s)] /\
+  next_id (create s k due) = next_id s + 1 /\
+  slot (create s k due) k = Some (next_id s) /\
+  (forall k', k' <> k -> slot (create s k due) k' = slot s k') /\
+  (forall k', runflag (create s k due) k' = runflag s k').
+Proof.
+  unfold create, new_timer. destruct k; cbn; repeat split;
+    try (intros []; intros; try reflexivity; congruence).
+Qed.
+
+Lemma LInv_create v s k due :
+  LInv v s -> (forall tm, In tm (timers s) -> t_kind tm <> k) -> runflag s k = true ->
+  (v <> VMistral -> generic_kind k) -> LInv v (create s k due).
+Proof.
+  intros [I1 I2 I3 I4 I5] Hk Hf Hv.
+  destruct (create_proj s k due) as (Ht & Hn & Hs & Hs' & Hr).
+  split; rewrite ?Ht, ?Hn.
+  - intros tm H. apply in_app_iff in H. destruct H as [H | [<- | []]].
+    + rewrite Hs' by (apply Hk; assumption). apply I1. assumption.
+    + cbn. assumption.
+  - intros tm H. apply in_app_iff in H. destruct H as [H | [<- | []]].
+    + specialize (I2 tm H). lia.
+    + cbn. lia.
+  - rewrite map_app. cbn.
+    apply (Permutation_NoDup (Permutation_app_comm [next_id s] (map t_id (timers s)))).
+    cbn. constructor; [|assumption].
+    intros H. apply in_map_iff in H. destruct H as (tm & E & H). specialize (I2 tm H). lia.
+  - intros tm H. rewrite Hr. apply in_app_iff in H. destruct H as [H | [<- | []]]; [auto|assumption].
+  - intros Hv' tm H. apply in_app_iff in H. destruct H as [H | [<- | []]]; [auto|cbn; auto].
+Qed.
+
+Lemma LInv_ext2 v s s' :
+  timers s' = timers s -> next_id s' = next_id s -> (forall k, slot s' k = slot s k) ->
+  (forall tm, In tm (timers s) -> runflag s' (t_kind tm) = true) -> LInv v s -> LInv v s'.
+Proof.
+  intros Ht Hn Hs Hf [I1 I2 I3 I4 I5]. split; rewrite ?Ht, ?Hn; intros; rewrite ?Hs; auto.
+Qed.
+
+Lemma LInv_empty v s : timers s = [] -> LInv v s.
+Proof.
+  intros E. split; rewrite E; cbn.
+  - intros tm [].
+  - intros tm [].
+  - constructor.
+  - intros tm [].
+  - intros _ tm [].
+Qed.
+
+(* cancelling through several attributes *)
+Definition cancel_kinds (s : st) (ks : list tkind) : st :=
+  fold_left (fun s k => cancel_id s (slot s k)) ks s.
+
+Lemma cancel_kinds_in ks : forall s tm,
+  In tm (timers (cancel_kinds s ks)) ->
+  In tm (timers s) /\ forall k, In k ks -> slot s k <> Some (t_id tm).
+Proof.
+  induction ks as [|k ks IH]; cbn; intros s tm H.
+  - split; [assumption|intros k []].
+  - apply IH in H. destruct H as [H1 H2]. apply cancel_id_timers in H1. destruct H1 as [H1 H1'].
+    split; [assumption|]. intros k' [<- | Hk]; [assumption|].
+    specialize (H2 k' Hk). destruct (cancel_id_proj s (slot s k)) as (_ & Hs & _). rewrite Hs in H2. assumption.
+Qed.
+
+Lemma cancel_kinds_LInv v ks : forall s, LInv v s -> LInv v (cancel_kinds s ks).
+Proof. induction ks as [|k ks IH]; cbn; intros s I; [assumption|]. apply IH. apply LInv_cancel. assumption. Qed.
+
+Lemma cancel_kinds_proj ks : forall s,
+  (forall k, slot (cancel_kinds s ks) k = slot s k) /\ next_id (cancel_kinds s ks) = next_id s /\
+  conf (cancel_kinds s ks) = conf s /\ fname (cancel_kinds s ks) = fname s /\
+  now (cancel_kinds s ks) = now s /\ rbuf (cancel_kinds s ks) = rbuf s.
+Proof.
+  induction ks as [|k ks IH]; cbn; intros s; [repeat split|].
+  destruct (IH (cancel_id s (slot s k))) as (H1 & H2 & H3 & H4 & H5 & H6).
+  destruct (cancel_id_proj s (slot s k)) as (Hn & Hs & _ & _ & Hnow & Hb & Hc & Hf & _).
+  unfold cancel_kinds in *. cbn in *.
+  split; [intros k'; rewrite H1; apply Hs|]. repeat split; congruence.
+Qed.
+
+Definition all_kinds : list tkind := [KSetup; KTarget; KVna; KStart; KStop].
+
+Lemma cancel_all_empty v s : LInv v s -> timers (cancel_kinds s all_kinds) = [].
+Proof.
+  intros I. destruct (timers (cancel_kinds s all_kinds)) as [|tm l] eqn:E; [reflexivity|exfalso].
+  assert (H : In tm (timers (cancel_kinds s all_kinds))) by (rewrite E; left; reflexivity).
+  apply cancel_kinds_in in H. destruct H as [H1 H2].
+  apply (H2 (t_kind tm)); [destruct (t_kind tm); cbn; tauto|]. apply (li_slot v s I). assumption.
+Qed.
+
+Lemma cancel_generic_empty v s :
+  v <> VMistral -> LInv v s -> timers (cancel_kinds s [KStart; KStop]) = [].
+Proof.
+  intros Hv I. destruct (timers (cancel_kinds s [KStart; KStop])) as [|tm l] eqn:E; [reflexivity|exfalso].
+  assert (H : In tm (timers (cancel_kinds s [KStart; KStop]))) by (rewrite E; left; reflexivity).
+  apply cancel_kinds_in in H. destruct H as [H1 H2].
+  apply (H2 (t_kind tm)); [|apply (li_slot v s I); assumption].
+  destruct (li_variant v s I Hv tm H1) as [-> | ->]; cbn; tauto.
+Qed.
+
+(* MISTRAL: setup / sweeps are only started when nothing runs *)
+Lemma merror_idle s :
+  merror s = ENone \/ merror s = ESetup ->
+  rsetup s = false /\ rtarget s = false /\ rvna s = false /\ acq s = false /\ failure s = false.
+Proof.
+  unfold merror, running_task. intros H.
+  destruct (failure s); [destruct H; discriminate|].
+  destruct (rvna s); [vm_compute in H; destruct H; discriminate|].
+  destruct (rtarget s); [vm_compute in H; destruct H; discriminate|].
+  destruct (rsetup s); [vm_compute in H; destruct H; discriminate|].
+  destruct (acq s); [vm_compute in H; destruct H; discriminate|]. auto.
+Qed.
+
+Definition generic_cmd (c : cmd) : bool :=
+  match c with CSetup | CTargetSweep | CVnaSweep | CReset => false | _ => true end.
+
+Lemma assoc_in {B} k (l : list (list Z * B)) c : assoc k l = Some c -> In c (map snd l).
+Proof.
+  induction l as [|[k' c'] l IH]; cbn; [discriminate|].
+  destruct (zlist_eqb k k'); [intros H; injection H as <-; auto|auto].
+Qed.
+
+Lemma dispatch_generic v name c : v <> VMistral -> dispatch v name = Some c -> generic_cmd c = true.
+Proof.
+  intros Hv H.
+  assert (Hin : In c (map snd BckModel.commands_generic)) by (destruct v; try congruence; eapply assoc_in; eassumption).
+  assert (Hall : forallb generic_cmd (map snd BckModel.commands_generic) = true) by reflexivity.
+  rewrite forallb_forall in Hall. auto.
+Qed.
+
+Lemma start_at_eq s t :
+  start_at s t = if t <? now s then HFail (zs "starting time already elapsed")
+                 else HOk (create (set_wstart (cancel_id s (slot s KStart)) true) KStart t) [].
+Proof. unfold start_at, create, new_timer. destruct (t <? now s); reflexivity. Qed.
+Lemma stop_at_eq s t :
+  stop_at s t = if t <? now s then HFail (zs "stop time already elapsed")
+                else HOk (create (set_wstop (cancel_id s (slot s KStop)) true) KStop t) [].
+Proof. unfold stop_at, create, new_timer. destruct (t <? now s); reflexivity. Qed.
+
+Lemma LInv_start_at v s t s' ra : LInv v s -> start_at s t = HOk s' ra -> LInv v s'.
+Proof.
+  intros I H. rewrite start_at_eq in H. destruct (t <? now s); [discriminate|]. injection H as <- _.
+  apply LInv_create.
+  - ext_tac. apply LInv_cancel. assumption.
+  - cbn. intros tm Hin. eapply cancel_slot_none; eassumption.
+  - reflexivity.
+  - intros _. left. reflexivity.
+Qed.
+Lemma LInv_stop_at v s t s' ra : LInv v s -> stop_at s t = HOk s' ra -> LInv v s'.
+Proof.
+  intros I H. rewrite stop_at_eq in H. destruct (t <? now s); [discriminate|]. injection H as <- _.
+  apply LInv_create.
+  - ext_tac. apply LInv_cancel. assumption.
+  - cbn. intros tm Hin. eapply cancel_slot_none; eassumption.
+  - reflexivity.
+  - intros _. right. reflexivity.
+Qed.
+
+Lemma LInv_start_now v s s' : LInv v s -> start_now s = Some s' -> LInv v s'.
+Proof. unfold start_now. intros I H. destruct (acq s); [discriminate|]. injection H as <-. ext_tac. assumption. Qed.
+Lemma LInv_stop_now v s s' : LInv v s -> stop_now s = Some s' -> LInv v s'.
+Proof. unfold stop_now. intros I H. destruct (acq s); [|discriminate]. injection H as <-. ext_tac. assumption. Qed.
+
+Lemma LInv_do_start_generic o v s args s' ra :
+  LInv v s -> do_start_generic o s args = HOk s' ra -> LInv v s'.
+Proof.
+  unfold do_start_generic. intros I H. destruct args as [|a r].
+  - destruct (start_now s) eqn:E; [|discriminate]. injection H as <- _. eapply LInv_start_now; eassumption.
+  - destruct (o_ts o a); try discriminate. eapply LInv_start_at; eassumption.
+Qed.
+Lemma LInv_do_stop o v s args s' ra : LInv v s -> do_stop o s args = HOk s' ra -> LInv v s'.
+Proof.
+  unfold do_stop. intros I H. destruct args as [|a r].
+  - destruct (stop_now s) eqn:E; [|discriminate]. injection H as <- _. eapply LInv_stop_now; eassumption.
+  - destruct (o_ts o a); try discriminate. eapply LInv_stop_at; eassumption.
+Qed.
+
+(* a task (setup / sweep) is created in an idle system: its flag goes up, its timer is the only one of its kind *)
+Lemma LInv_task s k due (setf : st -> bool -> st) :
+  LInv VMistral s -> runflag s k = false ->
+  (forall x, timers (setf s x) = timers s) -> (forall x, next_id (setf s x) = next_id s) ->
+  (forall x k', slot (setf s x) k' = slot s k') ->
+  (forall k', k' <> k -> runflag (setf s true) k' = runflag s k') -> runflag (setf s true) k = true ->
+  LInv VMistral (create (setf s true) k due).
+Proof.
+  intros I Hf Ht Hn Hs Hr Hk.
+  assert (Hnone : forall tm, In tm (timers s) -> t_kind tm <> k).
+  { intros tm Hin E. pose proof (li_flag _ _ I tm Hin) as F. rewrite E in F. congruence. }
+  apply LInv_create.
+  - eapply LInv_ext2; [apply Ht|apply Hn|apply Hs| |exact I].
+    intros tm Hin. rewrite Hr by (apply Hnone; assumption). apply (li_flag _ _ I). assumption.
+  - rewrite Ht. assumption.
+  - assumption.
+  - congruence.
+Qed.
+
+Lemma do_reset_timers s : timers (do_reset s) = timers (cancel_kinds s all_kinds).
+Proof. reflexivity. Qed.
+
+Theorem handler_LInv o v c s args s' ra :
+  LInv v s -> (v <> VMistral -> generic_cmd c = true) ->
+  handler o v c s args = HOk s' ra -> LInv v s'.
+Proof.
+  intros I Hg H.
+  destruct c; cbn [handler] in H;
+    try (injection H as <- _; assumption).
+  - destruct args as [|a r]; [discriminate|]. destruct (valid_conf v a); [|discriminate].
+    injection H as <- _. ext_tac. assumption.
+  - destruct args as [|a r]; [discriminate|]. destruct (o_int o a) as [z|]; [|discriminate].
+    destruct (z <? 0); [discriminate|]. injection H as <- _. ext_tac. assumption.
+  - destruct (do_set_section_res o s args) as [E | (m & E & _)]; rewrite E in H; [|discriminate].
+    injection H as <- _. assumption.
+  - destruct args as [|a r].
+    + injection H as <- _. ext_tac. assumption.
+    + destruct (o_int o a) as [z|]; [|discriminate]. destruct (z <? 0); [discriminate|].
+      injection H as <- _. ext_tac. assumption.
+  - destruct (do_set_enable_res o s args) as [E | (m & E & _)]; rewrite E in H; [|discriminate].
+    injection H as <- _. assumption.
+  - assert (E : do_start_generic o s args = HOk s' ra).
+    { destruct v; auto. apply task_guard_ok in H. assumption. }
+    eapply LInv_do_start_generic; eassumption.
+  - eapply LInv_do_stop; eassumption.
+  - destruct args as [|a r]; [discriminate|]. injection H as <- _. ext_tac. assumption.
+  - (* setup *)
+    destruct v; try (specialize (Hg ltac:(discriminate)); discriminate).
+    assert (Hid : merror s = ENone \/ merror s = ESetup) by (destruct (merror s); auto; discriminate).
+    destruct (merror_idle s Hid) as (F1 & _).
+    assert (E : s' = create (set_rsetup s true) KSetup (now s + setup_time_s * units_per_s)).
+    { unfold create. destruct (merror s); try discriminate; unfold new_timer in *; injection H as <- _; reflexivity. }
+    subst s'. apply (LInv_task s KSetup _ set_rsetup);
+      [assumption|assumption|intros; reflexivity|intros; reflexivity|intros; reflexivity| |reflexivity].
+    intros [] Hk; try reflexivity. congruence.
+  - (* target-sweep *)
+    destruct v; try (specialize (Hg ltac:(discriminate)); discriminate).
+    unfold task_guard in H. destruct (merror s) eqn:Em; try discriminate.
+    destruct (merror_idle s (or_introl Em)) as (_ & F2 & _).
+    assert (E : s' = create (set_rtarget s true) KTarget (now s + sweep_time_s * units_per_s)).
+    { unfold create, new_timer in *. injection H as <- _. reflexivity. }
+    subst s'. apply (LInv_task s KTarget _ set_rtarget);
+      [assumption|assumption|intros; reflexivity|intros; reflexivity|intros; reflexivity| |reflexivity].
+    intros [] Hk; try reflexivity. congruence.
+  - (* vna-sweep *)
+    destruct v; try (specialize (Hg ltac:(discriminate)); discriminate).
+    unfold task_guard in H. destruct (merror s) eqn:Em; try discriminate.
+    destruct (merror_idle s (or_introl Em)) as (_ & _ & F3 & _).
+    assert (E : s' = create (set_rvna s true) KVna (now s + sweep_time_s * units_per_s)).
+    { unfold create, new_timer in *. injection H as <- _. reflexivity. }
+    subst s'. apply (LInv_task s KVna _ set_rvna);
+      [assumption|assumption|intros; reflexivity|intros; reflexivity|intros; reflexivity| |reflexivity].
+    intros [] Hk; try reflexivity. congruence.
+  - (* reset *)
+    injection H as <- _. apply LInv_empty. rewrite do_reset_timers. eapply cancel_all_empty. eassumption.
+Qed.
+
+(* ------------------------------------------------------------------------------------------ *)
+(* timers firing *)
+
+Lemma fire_unfold s tm :
+  fire s tm =
+  let s0 := cancel_id s (Some (t_id tm)) in
+  match t_kind tm with
+  | KStart => match start_now s0 with Some s' => (s', true) | None => (s0, false) end
+  | KStop => match stop_now s0 with Some s' => (s', true) | None => (s0, false) end
+  | KSetup => (set_rsetup (set_ready s0 true) false, true)
+  | KTarget => (set_rtarget s0 false, true)
+  | KVna => (set_rvna s0 false, true)
+  end.
+Proof. reflexivity. Qed.
+
+Lemma fire_proj s tm :
+  timers (fst (fire s tm)) = timers (cancel_id s (Some (t_id tm))) /\
+  conf (fst (fire s tm)) = conf s /\ fname (fst (fire s tm)) = fname s /\
+  now (fst (fire s tm)) = now s /\ rbuf (fst (fire s tm)) = rbuf s /\
+  next_id (fst (fire s tm)) = next_id s /\ (forall k, slot (fst (fire s tm)) k = slot s k).
+Proof.
+  rewrite fire_unfold. unfold start_now, stop_now. cbn zeta.
+  destruct (t_kind tm); cbn; try (destruct (acq s)); cbn; repeat split; try reflexivity; intros []; reflexivity.
+Qed.
+
+Lemma LInv_fire v s tm : LInv v s -> In tm (timers s) -> LInv v (fst (fire s tm)).
+Proof.
+  intros I Hin. rewrite fire_unfold. cbn zeta.
+  pose proof (li_slot v s I tm Hin) as Hs.
+  assert (I0 : LInv v (cancel_id s (Some (t_id tm)))) by (apply LInv_cancel; assumption).
+  assert (Hnone : forall tm', In tm' (timers (cancel_id s (Some (t_id tm)))) -> t_kind tm' <> t_kind tm).
+  { rewrite <- Hs. intros tm' H'. exact (cancel_slot_none v s _ tm' I H'). }
+  set (s0 := cancel_id s (Some (t_id tm))) in *.
+  destruct (t_kind tm) eqn:Ek.
+  - destruct (start_now s0) eqn:E; cbn; [eapply LInv_start_now; eassumption|assumption].
+  - destruct (stop_now s0) eqn:E; cbn; [eapply LInv_stop_now; eassumption|assumption].
+  - cbn. apply (LInv_ext2 v s0); [reflexivity|reflexivity|intros; reflexivity| |assumption].
+    intros tm' H'. pose proof (Hnone tm' H') as Hk. pose proof (li_flag v s0 I0 tm' H') as Hf.
+    destruct (t_kind tm'); try assumption; congruence.
+  - cbn. apply (LInv_ext2 v s0); [reflexivity|reflexivity|intros; reflexivity| |assumption].
+    intros tm' H'. pose proof (Hnone tm' H') as Hk. pose proof (li_flag v s0 I0 tm' H') as Hf.
+    destruct (t_kind tm'); try assumption; congruence.
+  - cbn. apply (LInv_ext2 v s0); [reflexivity|reflexivity|intros; reflexivity| |assumption].
+    intros tm' H'. pose proof (Hnone tm' H') as Hk. pose proof (li_flag v s0 I0 tm' H') as Hf.
+    destruct (t_kind tm'); try assumption; congruence.
+Qed.
+
+Lemma fire_all_cons s tm r :
+  fst (fire_all s (tm :: r)) = fst (fire_all (fst (fire s tm)) r) /\
+  snd (fire_all s (tm :: r)) = (t_kind tm, snd (fire s tm)) :: snd (fire_all (fst (fire s tm)) r).
+Proof. cbn [fire_all]. destruct (fire s tm) as [s1 b]. cbn [fst snd]. destruct (fire_all s1 r) as [s2 fs]. cbn. split; reflexivity. Qed.
+
+Lemma LInv_fire_all v l : forall s,
+  LInv v s -> (forall tm, In tm l -> In tm (timers s)) -> NoDup (map t_id l) ->
+  LInv v (fst (fire_all s l)).
+Proof.
+  induction l as [|tm r IH]; intros s I Hin Hnd; [assumption|].
+  destruct (fire_all_cons s tm r) as [-> _]. inversion Hnd as [|? ? Hni Hnd']; subst.
+  apply IH; [apply LInv_fire; [assumption|apply Hin; left; reflexivity]| |assumption].
+  intros tm' H'. destruct (fire_proj s tm) as (-> & _). apply cancel_id_timers. split.
+  - apply Hin. right. assumption.
+  - intros E. injection E as E. apply Hni. rewrite E. apply in_map. assumption.
+Qed.
+
+Lemma fire_all_proj l : forall s,
+  conf (fst (fire_all s l)) = conf s /\ fname (fst (fire_all s l)) = fname s /\
+  now (fst (fire_all s l)) = now s /\ rbuf (fst (fire_all s l)) = rbuf s.
+Proof.
+  induction l as [|tm r IH]; intros s; [cbn; auto|].
+  destruct (fire_all_cons s tm r) as [-> _]. destruct (IH (fst (fire s tm))) as (-> & -> & -> & ->).
+  destruct (fire_proj s tm) as (_ & -> & -> & -> & -> & _). auto.
+Qed.
+
+(* which timers are left after firing a list: exactly those whose id is not in the list *)
+Lemma fire_all_timers l : forall s tm,
+  In tm (timers (fst (fire_all s l))) <-> In tm (timers s) /\ ~ In (t_id tm) (map t_id l).
+Proof.
+  induction l as [|x r IH]; intros s tm; [cbn; tauto|].
+  destruct (fire_all_cons s x r) as [-> _]. rewrite IH.
+  destruct (fire_proj s x) as (-> & _). rewrite cancel_id_timers. cbn. split.
+  - intros [[H1 H2] H3]. split; [assumption|]. intros [E | E]; [apply H2; congruence|tauto].
+  - intros [H1 H2]. split; [split; [assumption|]|tauto]. intros E. injection E as E. auto.
+Qed.
+
+Lemma insert_perm a l : Permutation (insert_timer a l) (a :: l).
+Proof.
+  induction l as [|b r IH]; cbn; [reflexivity|].
+  destruct (timer_le a b); [reflexivity|].
+  rewrite IH. apply perm_swap.
+Qed.
+
+Lemma sort_perm l : Permutation (sort_timers l) l.
+Proof.
+  induction l as [|a r IH]; cbn; [reflexivity|].
+  rewrite insert_perm. constructor. assumption.
+Qed.
+
+Definition due_list (s : st) (t : Z) : list timer :=
+  sort_timers (filter (fun tm => t_due tm <=? t) (timers s)).
+
+Lemma due_list_in s t tm : In tm (due_list s t) <-> In tm (timers s) /\ t_due tm <= t.
+Proof.
+  unfold due_list. split.
+  - intros H. apply (Permutation_in _ (sort_perm _)) in H. apply filter_In in H.
+    destruct H as [H1 H2]. split; [assumption|lia].
+  - intros [H1 H2]. apply (Permutation_in _ (Permutation_sym (sort_perm _))). apply filter_In.
+    split; [assumption|lia].
+Qed.
+
+Lemma due_list_nodup v s t : LInv v s -> NoDup (map t_id (due_list s t)).
+Proof.
+  intros I. unfold due_list.
+  apply (Permutation_NoDup (Permutation_map t_id (Permutation_sym (sort_perm _)))).
+  apply NoDup_map_filter. apply (li_nodup v s I).
+Qed.
+
+Lemma advance_unfold s t :
+  advance s t = (set_now (fst (fire_all s (due_list s (Z.max t (now s)))) ) (Z.max t (now s)),
+                 OFired (snd (fire_all s (due_list s (Z.max t (now s)))))).
+Proof. unfold advance, due_list. cbn zeta. destruct (fire_all s _). reflexivity. Qed.
+
+Lemma LInv_advance v s t : LInv v s -> LInv v (fst (advance s t)).
+Proof.
+  intros I. rewrite advance_unfold. cbn [fst]. ext_tac.
+  apply LInv_fire_all; [assumption| |eapply due_list_nodup; eassumption].
+  intros tm H. apply due_list_in in H. tauto.
+Qed.
+
+(* system_stop *)
+Lemma system_stop_eq v s :
+  fst (system_stop v s) = cancel_kinds s (match v with VMistral => all_kinds | _ => [KStart; KStop] end).
+Proof. destruct v; reflexivity. Qed.
+
+(* C07 (backend): after system_stop no timer of the backend is pending *)
+Theorem system_stop_clean v s : LInv v s -> timers (fst (system_stop v s)) = [].
+Proof.
+  intros I. rewrite system_stop_eq. destruct v.
+  - apply (cancel_generic_empty VGeneric); [discriminate|assumption].
+  - apply (cancel_generic_empty VSardara); [discriminate|assumption].
+  - eapply cancel_all_empty. eassumption.
+Qed.
+
+Theorem system_stop_ack v s : snd (system_stop v s) = OAck (zs "$server_shutdown%%%%%").
+Proof. reflexivity. Qed.
+
+(* ------------------------------------------------------------------------------------------ *)
+(* reachable states *)
+
+Lemma parse_line_LInv o v s line s' x : LInv v s -> parse_line o v s line = (s', x) -> LInv v s'.
+Proof.
+  intros I H. unfold parse_line in H.
+  destruct (parse_message line); try (injection H as <- _; assumption).
+  destruct (dispatch v name) as [c|] eqn:Ed; [|injection H as <- _; assumption].
+  destruct (handler o v c s args) as [s1 ra|m] eqn:Hh; injection H as <- _; [|assumption].
+  eapply handler_LInv; [eassumption| |eassumption].
+  intros Hv. eapply dispatch_generic; eassumption.
+Qed.
+
+Definition Inv (v : variant) (s : st) : Prop := RInv s /\ LInv v s.
+
+Lemma step_inv o v s e : oracle_clean o -> Inv v s -> Inv v (fst (step o v s e)).
+Proof.
+  intros Ho [Hr Hl]. destruct e as [b|t| |f]; cbn [step].
+  - unfold feed. destruct (ends_crlf b (rbuf s)).
+    + destruct (parse_line o v (set_rbuf s []) (strip_crlf (rev (b :: rbuf s)))) as [s' x] eqn:E. cbn [fst].
+      split.
+      * eapply (parse_line_reply o v (set_rbuf s [])); [assumption|exact Hr|apply strip_head_ok|eassumption].
+      * eapply parse_line_LInv; [|eassumption]. ext_tac. assumption.
+    + cbn [fst]. split; [exact Hr|ext_tac; assumption].
+  - split; [|apply LInv_advance; assumption].
+    rewrite advance_unfold. cbn [fst]. unfold RInv. cbn.
+    destruct (fire_all_proj (due_list s (Z.max t (now s))) s) as (-> & -> & _). exact Hr.
+  - split; [|apply LInv_empty; eapply system_stop_clean; eassumption].
+    rewrite system_stop_eq. unfold RInv.
+    destruct (cancel_kinds_proj (match v with VMistral => all_kinds | _ => [KStart; KStop] end) s)
+      as (_ & _ & -> & -> & _). exact Hr.
+  - cbn [fst]. split; [exact Hr|ext_tac; assumption].
+Qed.
+
+Inductive reachable (o : oracle) (v : variant) (t0 : Z) : st -> Prop :=
+| reach_init : reachable o v t0 (init t0)
+| reach_step s e : reachable o v t0 s -> reachable o v t0 (fst (step o v s e)).
+
+Theorem reachable_inv o v t0 s : oracle_clean o -> reachable o v t0 s -> Inv v s.
+Proof.
+  intros Ho H. induction H as [|s e H IH].
+  - split; [split; [lit|constructor]|apply LInv_init].
+  - apply step_inv; assumption.
+Qed.
+
+(* ------------------------------------------------------------------------------------------ *)
+(* (D) bytes and lines *)
+
+Definition code_of (c : list Z) : Prop := c = code_ok \/ c = code_fail \/ c = code_invalid.
+
+(* C19: whatever byte arrives in whatever reachable state, parse answers True or exactly one reply line
+   of the grammar; a reply can only come with the LF that completes a CR LF *)
+Theorem feed_obs o v s b s' x :
+  oracle_clean o -> Inv v s -> feed o v s b = (s', x) ->
+  (x = OTrue \/ exists r n c oa, x = OReply r /\ reply_line r n c oa /\ code_of c) /\
+  (ends_crlf b (rbuf s) = false -> x = OTrue /\ s' = set_rbuf s (b :: rbuf s)).
+Proof.
+  intros Ho [Hr Hl] H. unfold feed in H. destruct (ends_crlf b (rbuf s)) eqn:E.
+  - split; [|discriminate].
+    pose proof (parse_line_reply o v (set_rbuf s []) _ s' x Ho Hr (strip_head_ok _) H) as [_ P].
+    destruct (parse_message (strip_crlf (rev (b :: rbuf s)))).
+    + destruct P as (r & oa & -> & P & _). right. exists r, undefined_name, code_invalid, oa.
+      repeat split; auto. right; right; reflexivity.
+    + destruct P as (r & oa & -> & P & _). right. exists r, undefined_name, code_invalid, oa.
+      repeat split; auto. right; right; reflexivity.
+    + destruct P as (r & oa & -> & P & _). right. exists r, undefined_name, code_invalid, oa.
+      repeat split; auto. right; right; reflexivity.
+    + destruct P as (r & c & oa & -> & P & Hc). right. exists r, name, c, oa.
+      repeat split; auto. destruct Hc; [left|right; left]; assumption.
+    + left. tauto.
+  - injection H as <- <-. split; [left; reflexivity|auto].
+Qed.
+
+Lemma ends_crlf_true b rb : ends_crlf b rb = true <-> b = 10 /\ exists r, rb = 13 :: r.
+Proof.
+  unfold ends_crlf. destruct rb as [|c r].
+  - split; [discriminate|intros [_ [r' H]]; discriminate].
+  - split.
+    + intros H. apply andb_true_iff in H. destruct H as [H1 H2]. apply Z.eqb_eq in H1, H2. subst. eauto.
+    + intros [-> [r' H]]. injection H as -> _. reflexivity.
+Qed.
+
+Lemma run_app o v es1 : forall s es2,
+  run o v s (es1 ++ es2) =
+  (fst (run o v (fst (run o v s es1)) es2), snd (run o v s es1) ++ snd (run o v (fst (run o v s es1)) es2)).
+Proof.
+  induction es1 as [|e r IH]; intros s es2; cbn [run app].
+  - cbn [fst snd app]. destruct (run o v s es2); reflexivity.
+  - destruct (step o v s e) as [s1 x]. rewrite IH. destruct (run o v s1 r) as [s2 xs]. cbn [fst snd].
+    reflexivity.
+Qed.
+
+Lemma set_rbuf_same s : set_rbuf s (rbuf s) = s.
+Proof. destruct s; reflexivity. Qed.
+
+Lemma run_push o v l : forall s,
+  Forall (fun b => b <> 10) l ->
+  run o v s (map EByte l) = (set_rbuf s (rev l ++ rbuf s), repeat OTrue (List.length l)).
+Proof.
+  induction l as [|b r IH]; intros s Hl; cbn [map run].
+  - cbn. rewrite set_rbuf_same. reflexivity.
+  - inversion Hl as [|? ? Hb Hr]; subst. cbn [step]. unfold feed.
+    assert (E : ends_crlf b (rbuf s) = false).
+    { destruct (ends_crlf b (rbuf s)) eqn:E; [|reflexivity]. apply ends_crlf_true in E. tauto. }
+    rewrite E. rewrite (IH _ Hr). cbn [rbuf set_rbuf rev length repeat].
+    rewrite <- app_assoc. reflexivity.
+Qed.
+
+Lemma clean_no_lf l : clean l -> Forall (fun b => b <> 10) l.
+Proof.
+  unfold clean. rewrite !Forall_forall. intros H x Hx. specialize (H x Hx).
+  unfold not_crlf, is_crlf in H. lia.
+Qed.
+
+(* C19 / C03: a line without CR / LF inside, sent to an idle parser and terminated by CR LF, is answered
+   True for every byte but the last, and the last byte yields what _parse makes of the line *)
+Theorem line_one_reply o v s l :
+  rbuf s = [] -> clean l ->
+  run o v s (map EByte (l ++ [13; 10])) =
+  (fst (parse_line o v s l), repeat OTrue (List.length l + 1) ++ [snd (parse_line o v s l)]).
+Proof.
+  intros Hb Hc. rewrite map_app, run_app.
+  rewrite (run_push o v l s (clean_no_lf l Hc)). cbn [fst snd]. rewrite Hb, app_nil_r.
+  cbn [map run step]. unfold feed. cbn [rbuf set_rbuf].
+  assert (E1 : ends_crlf 13 (rev l) = false) by (unfold ends_crlf; destruct (rev l); reflexivity).
+  rewrite E1. cbn [rbuf set_rbuf]. change (ends_crlf 10 (13 :: rev l)) with true. cbn iota.
+  replace (rev (10 :: 13 :: rev l)) with (l ++ [13; 10])
+    by (cbn [rev]; rewrite rev_involutive, <- app_assoc; reflexivity).
+  rewrite (strip_crlf_line l Hc).
+  replace (set_rbuf (set_rbuf (set_rbuf s (rev l)) (13 :: rev l)) []) with s
+    by (rewrite <- (set_rbuf_same s) at 1; rewrite Hb; destruct s; reflexivity).
+  destruct (parse_line o v s l) as [s' x]. cbn [fst snd].
+  replace (List.length l + 1)%nat with (S (List.length l)) by lia.
+  f_equal. change [OTrue; x] with ([OTrue] ++ [x]). rewrite app_assoc. f_equal.
+  generalize (List.length l). intros n. induction n as [|n IH]; cbn; [reflexivity|]. f_equal. exact IH.
+Qed.
+
+(* C03 (backend): from any state and after any bytes, CR LF returns the line assembly to its idle state *)
+Lemma handler_rbuf o v c s args s' ra : rbuf s = [] -> handler o v c s args = HOk s' ra -> rbuf s' = [].
+Proof.
+  intros Hb H.
+  destruct c; cbn [handler] in H; try (injection H as <- _; assumption).
+  - destruct args; [discriminate|]. destruct (valid_conf v l); [|discriminate]. injection H as <- _. assumption.
+  - destruct args; [discriminate|]. destruct (o_int o l) as [z|]; [|discriminate].
+    destruct (z <? 0); [discriminate|]. injection H as <- _. assumption.
+  - destruct (do_set_section_res o s args) as [E | (m & E & _)]; rewrite E in H; [|discriminate].
+    injection H as <- _. assumption.
+  - destruct args.
+    + injection H as <- _. assumption.
+    + destruct (o_int o l) as [z|]; [|discriminate]. destruct (z <? 0); [discriminate|].
+      injection H as <- _. assumption.
+  - destruct (do_set_enable_res o s args) as [E | (m & E & _)]; rewrite E in H; [|discriminate].
+    injection H as <- _. assumption.
+  - assert (E : do_start_generic o s args = HOk s' ra).
+    { destruct v; auto. apply task_guard_ok in H. assumption. }
+    unfold do_start_generic, start_now in E. destruct args.
+    + destruct (acq s); [discriminate|]. injection E as <- _. assumption.
+    + destruct (o_ts o l); try discriminate. rewrite start_at_eq in E.
+      destruct (_ <? _); [discriminate|]. injection E as <- _.
+      unfold create, new_timer. cbn. destruct (startID s); assumption.
+  - unfold do_stop, stop_now in H. destruct args.
+    + destruct (acq s); [|discriminate]. injection H as <- _. assumption.
+    + destruct (o_ts o l); try discriminate. rewrite stop_at_eq in H.
+      destruct (_ <? _); [discriminate|]. injection H as <- _.
+      unfold create, new_timer. cbn. destruct (stopID s); assumption.
+  - destruct args; [discriminate|]. injection H as <- _. assumption.
+  - unfold new_timer in H. destruct (merror s); try discriminate; injection H as <- _; assumption.
+  - apply task_guard_ok in H. unfold new_timer in H. injection H as <- _. assumption.
+  - apply task_guard_ok in H. unfold new_timer in H. injection H as <- _. assumption.
+  - injection H as <- _. reflexivity.
+Qed.
+
+Lemma parse_line_rbuf o v s line : rbuf s = [] -> rbuf (fst (parse_line o v s line)) = [].
+Proof.
+  intros Hb. unfold parse_line.
+  destruct (parse_message line); try assumption.
+  destruct (dispatch v name); [|assumption].
+  destruct (handler o v c s args) eqn:E; [|assumption]. eapply handler_rbuf; eassumption.
+Qed.
+
+Theorem crlf_returns_to_idle o v s bs :
+  rbuf (fst (run o v s (map EByte (bs ++ [13; 10])))) = [].
+Proof.
+  rewrite map_app, run_app. cbn [fst]. set (s1 := fst (run o v s (map EByte bs))).
+  cbn [map run step]. unfold feed at 1.
+  assert (E1 : ends_crlf 13 (rbuf s1) = false) by (unfold ends_crlf; destruct (rbuf s1); reflexivity).
+  rewrite E1. unfold feed. cbn [rbuf set_rbuf]. change (ends_crlf 10 (13 :: rbuf s1)) with true. cbn iota.
+  destruct (parse_line o v _ _) as [s2 x] eqn:E. cbn [fst].
+  change s2 with (fst (s2, x)). rewrite <- E. apply parse_line_rbuf. reflexivity.
+Qed.
+
+(* C03 (backend): a line outside the grammar is discarded with one 'undefined' reply, nothing else changes *)
+Theorem garbage_discarded o v s line :
+  oracle_clean o -> RInv s -> head_ok line ->
+  (forall n a, parse_message line <> PMReq n a) -> (forall n c a, parse_message line <> PMRep n c a) ->
+  exists r oa, parse_line o v s line = (s, OReply r) /\ reply_line r undefined_name code_invalid oa.
+Proof.
+  intros Ho Hr Hh Hq Hp. destruct (parse_line o v s line) as [s' x] eqn:E.
+  pose proof (parse_line_reply o v s line s' x Ho Hr Hh E) as [_ P].
+  destruct (parse_message line) eqn:Em.
+  - destruct P as (r & oa & -> & P & ->). eauto.
+  - destruct P as (r & oa & -> & P & ->). eauto.
+  - destruct P as (r & oa & -> & P & ->). eauto.
+  - exfalso. eapply Hq. reflexivity.
+  - exfalso. eapply Hp. reflexivity.
+Qed.
+
+(* C19: a well-formed reply line sent by the client is ignored *)
+Theorem replies_ignored o v s r n c oa :
+  reply_line r n c oa -> parse_line o v s r = (s, OTrue).
+Proof.
+  intros H. unfold parse_line. rewrite (recogniser_accepts_reply r n c oa H). reflexivity.
+Qed.
+
+(* ------------------------------------------------------------------------------------------ *)
+(* (E) requests as lines *)
+
+Definition req0 (name : string) : list Z := 63 :: zs name.
+Definition req1 (name : string) (a : list Z) : list Z := 63 :: zs name ++ 44 :: a.
+
+Definition name_wfb (n : list Z) : bool :=
+  match n with c :: r => is_alpha c && forallb is_namech r | [] => false end.
+Lemma name_wfb_spec n : name_wfb n = true -> name_wf n.
+Proof.
+  destruct n as [|c r]; cbn; [discriminate|]. intros H. apply andb_true_iff in H. destruct H as [H1 H2].
+  exists c, r. repeat split; [apply is_alpha_spec; assumption|].
+  rewrite forallb_forall in H2. rewrite Forall_forall. intros x Hx. apply is_namech_spec. auto.
+Qed.
+Ltac namelit := apply name_wfb_spec; reflexivity.
+
+Lemma parse_req0 name : name_wf (zs name) -> parse_message (req0 name) = PMReq (zs name) [].
+Proof. intros H. exact (recogniser_accepts_request _ _ None (RequestNoArgs (zs name) H)). Qed.
+
+Lemma parse_req1 name a :
+  name_wf (zs name) -> arg_text a -> parse_message (req1 name a) = PMReq (zs name) (split_comma a).
+Proof. intros H Ha. exact (recogniser_accepts_request _ _ (Some a) (RequestArgs (zs name) a H Ha)). Qed.
+
+Lemma parse_line_req o v s line name args c :
+  parse_message line = PMReq name args -> dispatch v name = Some c ->
+  parse_line o v s line =
+  match handler o v c s args with
+  | HOk s' ra => (s', OReply (reply_str name (if failure s' then c_fail else c_ok) ra))
+  | HFail m => (s, OReply (reply_str name c_fail [m]))
+  end.
+Proof. intros Hp Hd. unfold parse_line. rewrite Hp, Hd. reflexivity. Qed.
+
+Lemma dispatch_start v : dispatch v (zs "start") = Some CStart. Proof. destruct v; reflexivity. Qed.
+Lemma dispatch_stop v : dispatch v (zs "stop") = Some CStop. Proof. destruct v; reflexivity. Qed.
+
+(* ------------------------------------------------------------------------------------------ *)
+(* (F) acquisition state machine *)
+
+Theorem start_fails_while_acquiring o v s :
+  acq s = true ->
+  exists m, parse_line o v s (req0 "start") = (s, OReply (reply_str (zs "start") c_fail [m])).
+Proof.
+  intros Ha. rewrite (parse_line_req o v s _ _ _ _ (parse_req0 "start" ltac:(namelit)) (dispatch_start v)).
+  assert (G : do_start_generic o s [] = HFail (zs "already acquiring")).
+  { unfold do_start_generic, start_now. rewrite Ha. reflexivity. }
+  cbn [handler]. destruct v; try (rewrite G; eauto).
+  unfold task_guard. destruct (merror s) eqn:E; eexists; reflexivity.
+Qed.
+
+Theorem stop_fails_while_idle o v s :
+  acq s = false ->
+  parse_line o v s (req0 "stop") = (s, OReply (reply_str (zs "stop") c_fail [zs "not acquiring"])).
+Proof.
+  intros Ha. rewrite (parse_line_req o v s _ _ _ _ (parse_req0 "stop" ltac:(namelit)) (dispatch_stop v)).
+  cbn [handler]. unfold do_stop, stop_now. rewrite Ha. reflexivity.
+Qed.
+
+Definition guard_open (v : variant) (s : st) : Prop := v = VMistral -> merror s = ENone.
+
+Lemma handler_start_guard o v s args : guard_open v s -> handler o v CStart s args = do_start_generic o s args.
+Proof.
+  intros G. cbn [handler]. destruct v; try reflexivity. unfold task_guard. rewrite (G eq_refl). reflexivity.
+Qed.
+
+Theorem past_start_refused o v s a tok more t :
+  arg_text a -> split_comma a = tok :: more -> o_ts o tok = TsFin t -> t < now s -> guard_open v s ->
+  parse_line o v s (req1 "start" a) =
+  (s, OReply (reply_str (zs "start") c_fail [zs "starting time already elapsed"])).
+Proof.
+  intros Ha Hs Ho Ht G.
+  rewrite (parse_line_req o v s _ _ _ _ (parse_req1 "start" a ltac:(namelit) Ha) (dispatch_start v)).
+  rewrite (handler_start_guard o v s _ G), Hs. unfold do_start_generic. rewrite Ho, start_at_eq.
+  destruct (t <? now s) eqn:E; [reflexivity|lia].
+Qed.
+
+Theorem past_stop_refused o v s a tok more t :
+  arg_text a -> split_comma a = tok :: more -> o_ts o tok = TsFin t -> t < now s ->
+  parse_line o v s (req1 "stop" a) =
+  (s, OReply (reply_str (zs "stop") c_fail [zs "stop time already elapsed"])).
+Proof.
+  intros Ha Hs Ho Ht.
+  rewrite (parse_line_req o v s _ _ _ _ (parse_req1 "stop" a ltac:(namelit) Ha) (dispatch_stop v)).
+  cbn [handler]. rewrite Hs. unfold do_stop. rewrite Ho, stop_at_eq.
+  destruct (t <? now s) eqn:E; [reflexivity|lia].
+Qed.
+
+Definition not_finite (r : tsres) : Prop := match r with TsFin _ => False | _ => True end.
+
+(* a timestamp that float() rejects, or that is not a finite number, is refused (fixes/33) *)
+Theorem bad_timestamp_refused o v s a tok more :
+  arg_text a -> split_comma a = tok :: more -> not_finite (o_ts o tok) -> guard_open v s ->
+  parse_line o v s (req1 "start" a) =
+    (s, OReply (reply_str (zs "start") c_fail [quote (zs "wrong timestamp ") tok])) /\
+  parse_line o v s (req1 "stop" a) =
+    (s, OReply (reply_str (zs "stop") c_fail [quote (zs "wrong timestamp ") tok])).
+Proof.
+  intros Ha Hs Hn G. split.
+  - rewrite (parse_line_req o v s _ _ _ _ (parse_req1 "start" a ltac:(namelit) Ha) (dispatch_start v)).
+    rewrite (handler_start_guard o v s _ G), Hs. unfold do_start_generic.
+    destruct (o_ts o tok); try reflexivity. destruct Hn.
+  - rewrite (parse_line_req o v s _ _ _ _ (parse_req1 "stop" a ltac:(namelit) Ha) (dispatch_stop v)).
+    cbn [handler]. rewrite Hs. unfold do_stop. destruct (o_ts o tok); try reflexivity. destruct Hn.
+Qed.
+
+Definition sched_start (s : st) (t : Z) : st := create (set_wstart (cancel_id s (slot s KStart)) true) KStart t.
+Definition sched_stop (s : st) (t : Z) : st := create (set_wstop (cancel_id s (slot s KStop)) true) KStop t.
+
+(* a start / stop at a present or future instant is accepted and scheduled *)
+Theorem start_scheduled o v s a tok more t :
+  arg_text a -> split_comma a = tok :: more -> o_ts o tok = TsFin t -> now s <= t -> guard_open v s ->
+  parse_line o v s (req1 "start" a) =
+  (sched_start s t, OReply (reply_str (zs "start") (if failure s then c_fail else c_ok) [])).
+Proof.
+  intros Ha Hs Ho Ht G.
+  rewrite (parse_line_req o v s _ _ _ _ (parse_req1 "start" a ltac:(namelit) Ha) (dispatch_start v)).
+  rewrite (handler_start_guard o v s _ G), Hs. unfold do_start_generic. rewrite Ho, start_at_eq.
+  destruct (t <? now s) eqn:E; [lia|].
+  assert (F : failure (sched_start s t) = failure s).
+  { unfold sched_start, create, new_timer. cbn. destruct (startID s); reflexivity. }
+  fold (sched_start s t). rewrite F. reflexivity.
+Qed.
+
+Theorem stop_scheduled o v s a tok more t :
+  arg_text a -> split_comma a = tok :: more -> o_ts o tok = TsFin t -> now s <= t ->
+  parse_line o v s (req1 "stop" a) =
+  (sched_stop s t, OReply (reply_str (zs "stop") (if failure s then c_fail else c_ok) [])).
+Proof.
+  intros Ha Hs Ho Ht.
+  rewrite (parse_line_req o v s _ _ _ _ (parse_req1 "stop" a ltac:(namelit) Ha) (dispatch_stop v)).
+  cbn [handler]. rewrite Hs. unfold do_stop. rewrite Ho, stop_at_eq.
+  destruct (t <? now s) eqn:E; [lia|].
+  assert (F : failure (sched_stop s t) = failure s).
+  { unfold sched_stop, create, new_timer. cbn. destruct (stopID s); reflexivity. }
+  fold (sched_stop s t). rewrite F. reflexivity.
+Qed.
+
+Lemma filter_none {A} (p : A -> bool) l : (forall x, In x l -> p x = false) -> filter p l = [].
+Proof.
+  induction l as [|x l IH]; cbn; intros H; [reflexivity|].
+  rewrite (H x (or_introl eq_refl)). apply IH. intros y Hy. apply H. right. assumption.
+Qed.
+
+Lemma tkind_eqb_spec a b : tkind_eqb a b = true <-> a = b.
+Proof. destruct a, b; cbn; split; congruence. Qed.
+
+Lemma sched_timers v s k t (setf : st -> bool -> st) :
+  LInv v s -> (forall x, timers (setf x true) = timers x) -> (forall x, next_id (setf x true) = next_id x) ->
+  let s' := create (setf (cancel_id s (slot s k)) true) k t in
+  filter (fun tm => tkind_eqb (t_kind tm) k) (timers s') = [mkTimer k t (next_id s)] /\
+  (forall tm, In tm (timers s') <->
+              (In tm (timers s) /\ slot s k <> Some (t_id tm)) \/ tm = mkTimer k t (next_id s)).
+Proof.
+  intros I Ht Hn s'.
+  destruct (create_proj (setf (cancel_id s (slot s k)) true) k t) as (E & _).
+  destruct (cancel_id_proj s (slot s k)) as (En & _).
+  assert (E' : timers s' = timers (cancel_id s (slot s k)) ++ [mkTimer k t (next_id s)]).
+  { unfold s'. rewrite E, Ht, Hn, En. reflexivity. }
+  rewrite E'. split.
+  - rewrite filter_app. rewrite filter_none.
+    + cbn. destruct (tkind_eqb k k) eqn:Ek; [reflexivity|].
+      assert (tkind_eqb k k = true) by (apply tkind_eqb_spec; reflexivity). congruence.
+    + intros x Hx. pose proof (cancel_slot_none v s k x I Hx) as Hk.
+      destruct (tkind_eqb (t_kind x) k) eqn:Ek; [apply tkind_eqb_spec in Ek; contradiction|reflexivity].
+  - intros tm. rewrite in_app_iff, cancel_id_timers. cbn. intuition.
+Qed.
+
+(* C19 "a re-schedule replaces the earlier one": after an accepted scheduled start exactly one start timer is
+   pending, the new one, and the only timer removed is the one _startID referred to *)
+Theorem reschedule_replaces_start v s t :
+  LInv v s ->
+  filter (fun tm => tkind_eqb (t_kind tm) KStart) (timers (sched_start s t)) = [mkTimer KStart t (next_id s)] /\
+  (forall tm, In tm (timers (sched_start s t)) <->
+              (In tm (timers s) /\ startID s <> Some (t_id tm)) \/ tm = mkTimer KStart t (next_id s)).
+Proof. intros I. apply (sched_timers v s KStart t set_wstart I); intros; reflexivity. Qed.
+
+Theorem reschedule_replaces_stop v s t :
+  LInv v s ->
+  filter (fun tm => tkind_eqb (t_kind tm) KStop) (timers (sched_stop s t)) = [mkTimer KStop t (next_id s)] /\
+  (forall tm, In tm (timers (sched_stop s t)) <->
+              (In tm (timers s) /\ stopID s <> Some (t_id tm)) \/ tm = mkTimer KStop t (next_id s)).
+Proof. intros I. apply (sched_timers v s KStop t set_wstop I); intros; reflexivity. Qed.
+
+(* in every reachable state at most one timer of each kind is pending *)
+Theorem one_timer_per_kind v s tm1 tm2 :
+  LInv v s -> In tm1 (timers s) -> In tm2 (timers s) -> t_kind tm1 = t_kind tm2 -> t_id tm1 = t_id tm2.
+Proof.
+  intros I H1 H2 E. pose proof (li_slot v s I tm1 H1) as S1. pose proof (li_slot v s I tm2 H2) as S2.
+  rewrite E in S1. congruence.
+Qed.
+
+Lemma NoDup_map_inj {A} (f : A -> Z) (l : list A) x y :
+  NoDup (map f l) -> In x l -> In y l -> f x = f y -> x = y.
+Proof.
+  induction l as [|a l IH]; cbn; intros Hnd Hx Hy E; [destruct Hx|].
+  inversion Hnd as [|? ? Hni Hnd']; subst.
+  destruct Hx as [-> | Hx], Hy as [-> | Hy]; auto.
+  - exfalso. apply Hni. rewrite E. apply in_map. assumption.
+  - exfalso. apply Hni. rewrite <- E. apply in_map. assumption.
+Qed.
+
+(* scheduled timers fire exactly when the clock reaches their time *)
+Lemma fire_all_kinds l : forall s, map fst (snd (fire_all s l)) = map t_kind l.
+Proof.
+  induction l as [|tm r IH]; intros s; [reflexivity|].
+  destruct (fire_all_cons s tm r) as [_ ->]. cbn. rewrite IH. reflexivity.
+Qed.
+
+Definition fired_of (x : obs) : list (tkind * bool) := match x with OFired l => l | _ => [] end.
+
+Theorem scheduled_fires_at_time v s t tm :
+  LInv v s -> In tm (timers s) ->
+  (t_due tm <= Z.max t (now s) ->
+     ~ In tm (timers (fst (advance s t))) /\ In (t_kind tm) (map fst (fired_of (snd (advance s t))))) /\
+  (Z.max t (now s) < t_due tm ->
+     In tm (timers (fst (advance s t))) /\
+     forall b, ~ In (t_kind tm, b) (fired_of (snd (advance s t))) \/
+               exists tm', In tm' (timers s) /\ t_kind tm' = t_kind tm /\ t_due tm' <= Z.max t (now s)).
+Proof.
+  intros I Hin. rewrite advance_unfold. cbn [fst snd fired_of timers set_now].
+  set (T := Z.max t (now s)). split.
+  - intros Hd. split.
+    + intros H. apply fire_all_timers in H. destruct H as [_ H]. apply H. apply in_map.
+      apply due_list_in. tauto.
+    + rewrite fire_all_kinds. apply in_map. apply due_list_in. tauto.
+  - intros Hd. split.
+    + apply fire_all_timers. split; [assumption|]. intros H. apply in_map_iff in H.
+      destruct H as (tm' & E & H). apply due_list_in in H. destruct H as [H1 H2].
+      assert (tm' = tm) by (eapply (NoDup_map_inj t_id); [apply (li_nodup v s I)| | |]; eassumption).
+      subst. lia.
+    + intros b. destruct (in_dec (fun a b : tkind => ltac:(decide equality) : {a = b} + {a <> b})
+                                 (t_kind tm) (map fst (snd (fire_all s (due_list s T))))) as [Hk | Hk].
+      * right. rewrite fire_all_kinds in Hk. apply in_map_iff in Hk. destruct Hk as (tm' & E & H).
+        apply due_list_in in H. exists tm'. tauto.
+      * left. intros H. apply Hk. change (t_kind tm) with (fst (t_kind tm, b)). apply in_map. assumption.
+Qed.
+
+Lemma fire_start_idle s tm :
+  t_kind tm = KStart -> acq s = false -> acq (fst (fire s tm)) = true /\ snd (fire s tm) = true.
+Proof.
+  intros Hk Ha. rewrite fire_unfold, Hk. cbn zeta. unfold start_now.
+  destruct (cancel_id_proj s (Some (t_id tm))) as (_ & _ & _ & -> & _). rewrite Ha. cbn. auto.
+Qed.
+Lemma fire_stop_acquiring s tm :
+  t_kind tm = KStop -> acq s = true -> acq (fst (fire s tm)) = false /\ snd (fire s tm) = true.
+Proof.
+  intros Hk Ha. rewrite fire_unfold, Hk. cbn zeta. unfold stop_now.
+  destruct (cancel_id_proj s (Some (t_id tm))) as (_ & _ & _ & -> & _). rewrite Ha. cbn. auto.
+Qed.
+(* a timer firing in the "wrong" state: its callback raises (in the timer thread), nothing changes but the ledger *)
+Lemma fire_start_busy s tm :
+  t_kind tm = KStart -> acq s = true -> fire s tm = (cancel_id s (Some (t_id tm)), false).
+Proof.
+  intros Hk Ha. rewrite fire_unfold, Hk. cbn zeta. unfold start_now.
+  destruct (cancel_id_proj s (Some (t_id tm))) as (_ & _ & _ & -> & _). rewrite Ha. reflexivity.
+Qed.
+Lemma fire_stop_idle s tm :
+  t_kind tm = KStop -> acq s = false -> fire s tm = (cancel_id s (Some (t_id tm)), false).
+Proof.
+  intros Hk Ha. rewrite fire_unfold, Hk. cbn zeta. unfold stop_now.
+  destruct (cancel_id_proj s (Some (t_id tm))) as (_ & _ & _ & -> & _). rewrite Ha. reflexivity.
+Qed.
+
+(* the simplest schedule: one pending start, idle system *)
+Theorem scheduled_start_scenario s t tm :
+  timers s = [tm] -> t_kind tm = KStart -> acq s = false ->
+  (t_due tm <= Z.max t (now s) ->
+     acq (fst (advance s t)) = true /\ timers (fst (advance s t)) = [] /\
+     snd (advance s t) = OFired [(KStart, true)]) /\
+  (Z.max t (now s) < t_due tm ->
+     acq (fst (advance s t)) = false /\ timers (fst (advance s t)) = [tm] /\ snd (advance s t) = OFired []).
+Proof.
+  intros Ht Hk Ha. rewrite advance_unfold. unfold due_list. rewrite Ht. cbn [filter].
+  set (T := Z.max t (now s)). split; intros Hd.
+  - assert (E : (t_due tm <=? T) = true) by lia. rewrite E. cbn [sort_timers fold_right insert_timer].
+    destruct (fire_all_cons s tm []) as [E1 E2]. rewrite E1, E2. cbn [fire_all fst snd].
+    destruct (fire_start_idle s tm Hk Ha) as [F1 F2]. cbn. rewrite F1, F2, Hk.
+    destruct (fire_proj s tm) as (-> & _). cbn. rewrite Ht. cbn. rewrite Z.eqb_refl. auto.
+  - assert (E : (t_due tm <=? T) = false) by lia. rewrite E. cbn. auto.
+Qed.
+
+(* ------------------------------------------------------------------------------------------ *)
+(* (G) MISTRAL task guards *)
+
+Definition busy (s : st) : bool := acq s || rsetup s || rtarget s || rvna s.
+
+Lemma merror_cases s :
+  (failure s = true /\ merror s = EFailure) \/
+  (failure s = false /\ busy s = true /\ exists t, merror s = ETask t) \/
+  (failure s = false /\ busy s = false /\ ready s = false /\ merror s = ESetup) \/
+  (failure s = false /\ busy s = false /\ ready s = true /\ merror s = ENone).
+Proof.
+  unfold merror, running_task, busy.
+  destruct (failure s); [left; auto|right].
+  destruct (rvna s); [left; repeat split; try (rewrite ?orb_true_r; reflexivity); eexists; vm_compute; reflexivity|].
+  destruct (rtarget s); [left; repeat split; try (rewrite ?orb_true_r; reflexivity); eexists; vm_compute; reflexivity|].
+  destruct (rsetup s); [left; repeat split; try (rewrite ?orb_true_r; reflexivity); eexists; vm_compute; reflexivity|].
+  destruct (acq s); [left; repeat split; eexists; vm_compute; reflexivity|].
+  right. destruct (ready s); [right|left]; auto.
+Qed.
+
+Definition task_cmd (c : cmd) : Prop := c = CStart \/ c = CSetup \/ c = CTargetSweep \/ c = CVnaSweep.
+
+(* a task is refused while another is in progress, on failure, and (except setup) before setup completed;
+   a refused command changes nothing (HFail carries no state) *)
+Theorem mistral_task_guard o s c args :
+  task_cmd c ->
+  busy s = true \/ failure s = true \/ (ready s = false /\ c <> CSetup) ->
+  merror s <> ENone /\ handler o VMistral c s args = HFail (merr_msg (merror s)).
+Proof.
+  intros Hc Hb.
+  destruct (merror_cases s) as [(F & E) | [(F & B & (t & E)) | [(F & B & R & E) | (F & B & R & E)]]].
+  - split; [congruence|]. destruct Hc as [-> | [-> | [-> | ->]]]; cbn [handler]; unfold task_guard;
+      rewrite E; reflexivity.
+  - split; [congruence|]. destruct Hc as [-> | [-> | [-> | ->]]]; cbn [handler]; unfold task_guard;
+      rewrite E; reflexivity.
+  - split; [congruence|].
+    destruct Hb as [Hb | [Hb | [_ Hb]]]; try congruence.
+    destruct Hc as [-> | [-> | [-> | ->]]]; try congruence; cbn [handler]; unfold task_guard;
+      rewrite E; reflexivity.
+  - exfalso. destruct Hb as [Hb | [Hb | [Hb _]]]; congruence.
+Qed.
+
+Lemma dispatch_mistral_tasks :
+  dispatch VMistral (zs "setup") = Some CSetup /\ dispatch VMistral (zs "target-sweep") = Some CTargetSweep /\
+  dispatch VMistral (zs "vna-sweep") = Some CVnaSweep /\ dispatch VMistral (zs "reset") = Some CReset.
+Proof. repeat split; reflexivity. Qed.
+
+Theorem mistral_task_guard_line o s name c :
+  name_wf (zs name) -> dispatch VMistral (zs name) = Some c -> task_cmd c ->
+  busy s = true \/ failure s = true \/ (ready s = false /\ c <> CSetup) ->
+  parse_line o VMistral s (req0 name) =
+  (s, OReply (reply_str (zs name) c_fail [merr_msg (merror s)])).
+Proof.
+  intros Hn Hd Hc Hb. rewrite (parse_line_req o VMistral s _ _ _ _ (parse_req0 name Hn) Hd).
+  destruct (mistral_task_guard o s c [] Hc Hb) as [_ ->]. reflexivity.
+Qed.
+
+(* in a ready, idle, healthy system each task starts: flag up, one timer due after its duration *)
+Theorem mistral_task_accepted o s args :
+  merror s = ENone ->
+  handler o VMistral CSetup s args
+    = HOk (create (set_rsetup s true) KSetup (now s + setup_time_s * units_per_s)) [] /\
+  handler o VMistral CTargetSweep s args
+    = HOk (create (set_rtarget s true) KTarget (now s + sweep_time_s * units_per_s)) [] /\
+  handler o VMistral CVnaSweep s args
+    = HOk (create (set_rvna s true) KVna (now s + sweep_time_s * units_per_s)) [].
+Proof.
+  intros E. cbn [handler]. unfold task_guard, create, new_timer. rewrite E. auto.
+Qed.
+
+Theorem mistral_setup_first o s args :
+  merror s = ESetup ->
+  handler o VMistral CSetup s args
+    = HOk (create (set_rsetup s true) KSetup (now s + setup_time_s * units_per_s)) [].
+Proof. intros E. cbn [handler]. unfold create, new_timer. rewrite E. reflexivity. Qed.
+
+Theorem mistral_setup_completes s tm :
+  t_kind tm = KSetup -> ready (fst (fire s tm)) = true /\ rsetup (fst (fire s tm)) = false.
+Proof. intros Hk. rewrite fire_unfold, Hk. cbn. auto. Qed.
+
+(* ------------------------------------------------------------------------------------------ *)
+(* (H) queries (C02 backend) *)
+
+Definition query_args (o : oracle) (v : variant) (s : st) (c : cmd) : list (list Z) :=
+  match c with
+  | CStatus => [o_time o (now s); match v with VMistral => mistral_status_msg s | _ => zs "ok" end; bit (acq s)]
+  | CVersion => [BckModel.protocol_version]
+  | CTime => [o_time o (now s)]
+  | CGetConfiguration => [conf s]
+  | CGetIntegration => [dec (integ s)]
+  | CGetFilename => [fname s]
+  | CGetTpi => [o_tpi1 o; o_tpi2 o]
+  | CGetTp0 => [zs "0"; zs "0"]
+  | _ => []
+  end.
+
+Definition queries : list (string * cmd) :=
+  [("status", CStatus); ("version", CVersion); ("time", CTime); ("get-configuration", CGetConfiguration);
+   ("get-integration", CGetIntegration); ("get-filename", CGetFilename); ("get-tpi", CGetTpi);
+   ("get-tp0", CGetTp0)]%string.
+
+Lemma queries_wf q c v : In (q, c) queries -> name_wf (zs q) /\ dispatch v (zs q) = Some c /\ clean (req0 q).
+Proof.
+  intros H. cbn in H.
+  repeat (destruct H as [H | H]; [injection H as <- <-; split; [namelit|split; [destruct v; reflexivity|lit]]|]).
+  destruct H.
+Qed.
+
+(* every query of the catalogue is answered at once, in every state, with its value, and changes nothing *)
+Theorem query_answered o v s q c :
+  In (q, c) queries ->
+  parse_line o v s (req0 q) =
+  (s, OReply (reply_str (zs q) (if failure s then c_fail else c_ok) (query_args o v s c))).
+Proof.
+  intros H. destruct (queries_wf q c v H) as (Hn & Hd & _).
+  rewrite (parse_line_req o v s _ _ _ _ (parse_req0 q Hn) Hd).
+  cbn in H. repeat (destruct H as [H | H]; [injection H as <- <-; reflexivity|]). destruct H.
+Qed.
+
+Theorem query_answered_bytes o v s q c :
+  oracle_clean o -> Inv v s -> rbuf s = [] -> In (q, c) queries ->
+  exists r code oa,
+    run o v s (map EByte (req0 q ++ [13; 10])) = (s, repeat OTrue (List.length (req0 q) + 1) ++ [OReply r]) /\
+    reply_line r (zs q) code oa /\ (code = code_ok \/ code = code_fail).
+Proof.
+  intros Ho [Hr Hl] Hb H. destruct (queries_wf q c v H) as (Hn & Hd & Hc).
+  rewrite (line_one_reply o v s (req0 q) Hb Hc).
+  pose proof (query_answered o v s q c H) as E.
+  assert (Hh : head_ok (req0 q)) by reflexivity.
+  destruct (parse_line_reply o v s (req0 q) _ _ Ho Hr Hh E) as [_ P].
+  rewrite (parse_req0 q Hn) in P. destruct P as (r & code & oa & Ex & P & Hcode).
+  rewrite E. cbn [fst snd]. exists r, code, oa. rewrite <- Ex. auto.
+Qed.
+
+(* ------------------------------------------------------------------------------------------ *)
+(* (I) registers (C05 backend): configuration, file name, integration time *)
+
+Lemma handler_regs o v c s args s' ra :
+  handler o v c s args = HOk s' ra ->
+  (c = CSetConfiguration \/ c = CReset \/ conf s' = conf s) /\
+  (c = CSetFilename \/ c = CReset \/ fname s' = fname s) /\
+  (c = CSetIntegration \/ c = CReset \/ integ s' = integ s).
+Proof.
+  intros H.
+  destruct c; cbn [handler] in H; try (injection H as <- _; solve [auto 6]).
+  - destruct args; [discriminate|]. destruct (valid_conf v l); [|discriminate]. injection H as <- _. auto 6.
+  - destruct args; [discriminate|]. destruct (o_int o l) as [z|]; [|discriminate].
+    destruct (z <? 0); [discriminate|]. injection H as <- _. auto 6.
+  - destruct (do_set_section_res o s args) as [E | (m & E & _)]; rewrite E in H; [|discriminate].
+    injection H as <- _. auto.
+  - destruct args.
+    + injection H as <- _. auto.
+    + destruct (o_int o l) as [z|]; [|discriminate]. destruct (z <? 0); [discriminate|].
+      injection H as <- _. auto.
+  - destruct (do_set_enable_res o s args) as [E | (m & E & _)]; rewrite E in H; [|discriminate].
+    injection H as <- _. auto.
+  - assert (E : do_start_generic o s args = HOk s' ra).
+    { destruct v; auto. apply task_guard_ok in H. assumption. }
+    unfold do_start_generic, start_now in E. destruct args.
+    + destruct (acq s); [discriminate|]. injection E as <- _. auto.
+    + destruct (o_ts o l); try discriminate. rewrite start_at_eq in E.
+      destruct (_ <? _); [discriminate|]. injection E as <- _.
+      unfold create, new_timer. cbn. destruct (startID s); auto.
+  - unfold do_stop, stop_now in H. destruct args.
+    + destruct (acq s); [|discriminate]. injection H as <- _. auto.
+    + destruct (o_ts o l); try discriminate. rewrite stop_at_eq in H.
+      destruct (_ <? _); [discriminate|]. injection H as <- _.
+      unfold create, new_timer. cbn. destruct (stopID s); auto.
+  - destruct args; [discriminate|]. injection H as <- _. auto 6.
+  - unfold new_timer in H. destruct (merror s); try discriminate; injection H as <- _; auto.
+  - apply task_guard_ok in H. unfold new_timer in H. injection H as <- _. auto.
+  - apply task_guard_ok in H. unfold new_timer in H. injection H as <- _. auto.
+Qed.
+
+Lemma assoc_key {B} k (l : list (list Z * B)) c : assoc k l = Some c -> In (k, c) l.
+Proof.
+  induction l as [|[k' c'] l IH]; cbn; [discriminate|].
+  destruct (zlist_eqb k k') eqn:E.
+  - intros H. injection H as <-. apply zlist_eqb_eq in E. subst. auto.
+  - auto.
+Qed.
+
+Definition setter_name (c : cmd) : list Z :=
+  match c with
+  | CSetConfiguration => zs "set-configuration" | CSetFilename => zs "set-filename"
+  | CSetIntegration => zs "set-integration" | CReset => zs "reset"
+  | _ => []
+  end.
+
+Lemma dispatch_setter v name c :
+  dispatch v name = Some c ->
+  (c = CSetConfiguration \/ c = CSetFilename \/ c = CSetIntegration \/ c = CReset) ->
+  name = setter_name c /\ (c = CReset -> v = VMistral).
+Proof.
+  intros H Hc.
+  assert (Hin : In (name, c) BckModel.commands_mistral /\ (c = CReset -> v = VMistral)).
+  { destruct v; cbn [dispatch] in H; apply assoc_key in H.
+    - split; [right; right; right; right; assumption|].
+      intros ->. cbn in H. repeat (destruct H as [H | H]; [discriminate|]). destruct H.
+    - split; [right; right; right; right; assumption|].
+      intros ->. cbn in H. repeat (destruct H as [H | H]; [discriminate|]). destruct H.
+    - auto. }
+  destruct Hin as [Hin Hv]. split; [|assumption].
+  cbn in Hin.
+  repeat (destruct Hin as [Hin | Hin];
+          [injection Hin as <- <-; try reflexivity;
+           destruct Hc as [Hc | [Hc | [Hc | Hc]]]; discriminate|]).
+  destruct Hin.
+Qed.
+
+(* operations at line granularity (each line arrives on an idle buffer, see line_one_reply) *)
+Inductive op := OpLine (l : list Z) | OpAdvance (t : Z) | OpStop | OpFail (f : bool).
+
+Definition ostep (o : oracle) (v : variant) (s : st) (x : op) : st * obs :=
+  match x with
+  | OpLine l => parse_line o v s l
+  | OpAdvance t => advance s t
+  | OpStop => system_stop v s
+  | OpFail f => (set_failure s f, ONone)
+  end.
+Definition orun (o : oracle) (v : variant) (s : st) (h : list op) : st :=
+  fold_left (fun s x => fst (ostep o v s x)) h s.
+
+(* the line is a request named `setter`, or a MISTRAL reset *)
+Definition writes (setter : string) (v : variant) (x : op) : Prop :=
+  match x with
+  | OpLine l => match parse_message l with
+                | PMReq n _ => n = zs setter \/ (v = VMistral /\ n = zs "reset")
+                | _ => False
+                end
+  | _ => False
+  end.
+
+Lemma fire_all_integ l : forall s, integ (fst (fire_all s l)) = integ s.
+Proof.
+  induction l as [|tm r IH]; intros s; [reflexivity|].
+  destruct (fire_all_cons s tm r) as [-> _]. rewrite IH. rewrite fire_unfold. unfold start_now, stop_now.
+  cbn zeta. destruct (cancel_id_proj s (Some (t_id tm))) as (_ & _ & _ & Ha & _ & _ & _ & _ & Hi & _).
+  destruct (t_kind tm); cbn; rewrite ?Ha; try (destruct (acq s)); cbn; exact Hi.
+Qed.
+
+Lemma cancel_kinds_integ ks : forall s, integ (cancel_kinds s ks) = integ s.
+Proof.
+  induction ks as [|k ks IH]; intros s; [reflexivity|]. cbn. unfold cancel_kinds in IH. rewrite IH.
+  destruct (cancel_id_proj s (slot s k)) as (_ & _ & _ & _ & _ & _ & _ & _ & Hi & _). exact Hi.
+Qed.
+
+Definition regs (s : st) : list Z * list Z * Z := (conf s, fname s, integ s).
+
+Lemma ostep_regs_other o v s x : (forall l, x <> OpLine l) -> regs (fst (ostep o v s x)) = regs s.
+Proof.
+  intros Hx. unfold regs. destruct x as [l|t| |f]; [exfalso; eapply Hx; reflexivity| | |reflexivity].
+  - cbn [ostep]. rewrite advance_unfold. cbn [fst]. cbn [conf fname integ set_now].
+    destruct (fire_all_proj (due_list s (Z.max t (now s))) s) as (-> & -> & _).
+    rewrite fire_all_integ. reflexivity.
+  - cbn [ostep]. rewrite system_stop_eq.
+    destruct (cancel_kinds_proj (match v with VMistral => all_kinds | _ => [KStart; KStop] end) s)
+      as (_ & _ & -> & -> & _). rewrite cancel_kinds_integ. reflexivity.
+Qed.
+
+Lemma parse_line_regs o v s line :
+  (conf (fst (parse_line o v s line)) = conf s \/ writes "set-configuration" v (OpLine line)) /\
+  (fname (fst (parse_line o v s line)) = fname s \/ writes "set-filename" v (OpLine line)) /\
+  (integ (fst (parse_line o v s line)) = integ s \/ writes "set-integration" v (OpLine line)).
+Proof.
+  unfold parse_line, writes.
+  destruct (parse_message line) as [| | |name args|]; cbn [fst]; auto.
+  destruct (dispatch v name) as [c|] eqn:Ed; cbn [fst]; auto.
+  destruct (handler o v c s args) as [s1 ra|m] eqn:Eh; cbn [fst]; auto.
+  destruct (handler_regs o v c s args s1 ra Eh) as (H1 & H2 & H3).
+  repeat split.
+  - destruct H1 as [-> | [-> | H1]]; auto;
+      destruct (dispatch_setter v name _ Ed ltac:(auto)) as [-> Hv]; right; auto.
+  - destruct H2 as [-> | [-> | H2]]; auto;
+      destruct (dispatch_setter v name _ Ed ltac:(auto)) as [-> Hv]; right; auto.
+  - destruct H3 as [-> | [-> | H3]]; auto;
+      destruct (dispatch_setter v name _ Ed ltac:(auto)) as [-> Hv]; right; auto.
+Qed.
+
+Lemma orun_conf o v h : forall s,
+  Forall (fun x => ~ writes "set-configuration" v x) h -> conf (orun o v s h) = conf s.
+Proof.
+  induction h as [|x h IH]; intros s Hh; [reflexivity|]. inversion Hh as [|? ? Hx Hh']; subst.
+  cbn. unfold orun in IH. rewrite (IH _ Hh').
+  destruct x as [l|t| |f].
+  - destruct (parse_line_regs o v s l) as ([H | H] & _); [exact H|contradiction].
+  - pose proof (ostep_regs_other o v s (OpAdvance t) ltac:(discriminate)) as E. injection E; auto.
+  - pose proof (ostep_regs_other o v s OpStop ltac:(discriminate)) as E. injection E; auto.
+  - reflexivity.
+Qed.
+Lemma orun_fname o v h : forall s,
+  Forall (fun x => ~ writes "set-filename" v x) h -> fname (orun o v s h) = fname s.
+Proof.
+  induction h as [|x h IH]; intros s Hh; [reflexivity|]. inversion Hh as [|? ? Hx Hh']; subst.
+  cbn. unfold orun in IH. rewrite (IH _ Hh').
+  destruct x as [l|t| |f].
+  - destruct (parse_line_regs o v s l) as (_ & [H | H] & _); [exact H|contradiction].
+  - pose proof (ostep_regs_other o v s (OpAdvance t) ltac:(discriminate)) as E. injection E; auto.
+  - pose proof (ostep_regs_other o v s OpStop ltac:(discriminate)) as E. injection E; auto.
+  - reflexivity.
+Qed.
+Lemma orun_integ o v h : forall s,
+  Forall (fun x => ~ writes "set-integration" v x) h -> integ (orun o v s h) = integ s.
+Proof.
+  induction h as [|x h IH]; intros s Hh; [reflexivity|]. inversion Hh as [|? ? Hx Hh']; subst.
+  cbn. unfold orun in IH. rewrite (IH _ Hh').
+  destruct x as [l|t| |f].
+  - destruct (parse_line_regs o v s l) as (_ & _ & [H | H]); [exact H|contradiction].
+  - pose proof (ostep_regs_other o v s (OpAdvance t) ltac:(discriminate)) as E. injection E; auto.
+  - pose proof (ostep_regs_other o v s OpStop ltac:(discriminate)) as E. injection E; auto.
+  - reflexivity.
+Qed.
+
+Lemma dispatch_setters v :
+  dispatch v (zs "set-configuration") = Some CSetConfiguration /\
+  dispatch v (zs "set-filename") = Some CSetFilename /\
+  dispatch v (zs "set-integration") = Some CSetIntegration.
+Proof. destruct v; repeat split; reflexivity. Qed.
+
+(* an acknowledged write of the configuration name reads back exactly, after any history that contains no
+   other configuration write and no reset; a refused one changes nothing *)
+Theorem readback_configuration o v s a tok more :
+  arg_text a -> split_comma a = tok :: more ->
+  let s1 := fst (parse_line o v s (req1 "set-configuration" a)) in
+  (valid_conf v tok = true ->
+     snd (parse_line o v s (req1 "set-configuration" a))
+       = OReply (reply_str (zs "set-configuration") (if failure s then c_fail else c_ok) []) /\
+     forall h, Forall (fun x => ~ writes "set-configuration" v x) h ->
+       let s2 := orun o v s1 h in
+       parse_line o v s2 (req0 "get-configuration") =
+       (s2, OReply (reply_str (zs "get-configuration") (if failure s2 then c_fail else c_ok) [tok]))) /\
+  (valid_conf v tok = false ->
+     parse_line o v s (req1 "set-configuration" a) =
+     (s, OReply (reply_str (zs "set-configuration") c_fail [zs "invalid configuration"]))).
+Proof.
+  intros Ha Hs. destruct (dispatch_setters v) as (Hd & _).
+  cbn zeta. rewrite (parse_line_req o v s _ _ _ _ (parse_req1 "set-configuration" a ltac:(namelit) Ha) Hd).
+  cbn [handler]. rewrite Hs. split; intros Hv; rewrite Hv; [|reflexivity].
+  cbn [fst snd]. split; [reflexivity|]. intros h Hh.
+  rewrite (query_answered o v _ "get-configuration" CGetConfiguration ltac:(cbn; tauto)).
+  cbn [query_args]. rewrite (orun_conf o v h _ Hh). reflexivity.
+Qed.
+
+Theorem readback_filename o v s a tok more :
+  arg_text a -> split_comma a = tok :: more ->
+  let s1 := fst (parse_line o v s (req1 "set-filename" a)) in
+  snd (parse_line o v s (req1 "set-filename" a))
+    = OReply (reply_str (zs "set-filename") (if failure s then c_fail else c_ok) []) /\
+  forall h, Forall (fun x => ~ writes "set-filename" v x) h ->
+    let s2 := orun o v s1 h in
+    parse_line o v s2 (req0 "get-filename") =
+    (s2, OReply (reply_str (zs "get-filename") (if failure s2 then c_fail else c_ok) [tok])).
+Proof.
+  intros Ha Hs. destruct (dispatch_setters v) as (_ & Hd & _).
+  cbn zeta. rewrite (parse_line_req o v s _ _ _ _ (parse_req1 "set-filename" a ltac:(namelit) Ha) Hd).
+  cbn [handler]. rewrite Hs. cbn [fst snd]. split; [reflexivity|]. intros h Hh.
+  rewrite (query_answered o v _ "get-filename" CGetFilename ltac:(cbn; tauto)).
+  cbn [query_args]. rewrite (orun_fname o v h _ Hh). reflexivity.
+Qed.
+
+Theorem readback_integration o v s a tok more :
+  arg_text a -> split_comma a = tok :: more ->
+  let s1 := fst (parse_line o v s (req1 "set-integration" a)) in
+  (forall z, o_int o tok = Some z -> 0 <= z ->
+     snd (parse_line o v s (req1 "set-integration" a))
+       = OReply (reply_str (zs "set-integration") (if failure s then c_fail else c_ok) []) /\
+     forall h, Forall (fun x => ~ writes "set-integration" v x) h ->
+       let s2 := orun o v s1 h in
+       parse_line o v s2 (req0 "get-integration") =
+       (s2, OReply (reply_str (zs "get-integration") (if failure s2 then c_fail else c_ok) [dec z]))) /\
+  ((o_int o tok = None \/ exists z, o_int o tok = Some z /\ z < 0) ->
+     parse_line o v s (req1 "set-integration" a) =
+     (s, OReply (reply_str (zs "set-integration") c_fail [zs "integration time must be an integer number"]))).
+Proof.
+  intros Ha Hs. destruct (dispatch_setters v) as (_ & _ & Hd).
+  cbn zeta. rewrite (parse_line_req o v s _ _ _ _ (parse_req1 "set-integration" a ltac:(namelit) Ha) Hd).
+  cbn [handler]. rewrite Hs. split.
+  - intros z Hz Hpos. rewrite Hz. destruct (z <? 0) eqn:E; [lia|].
+    cbn [fst snd]. split; [reflexivity|]. intros h Hh.
+    rewrite (query_answered o v _ "get-integration" CGetIntegration ltac:(cbn; tauto)).
+    cbn [query_args]. rewrite (orun_integ o v h _ Hh). reflexivity.
+  - intros [Hn | (z & Hz & Hneg)].
+    + rewrite Hn. reflexivity.
+    + rewrite Hz. destruct (z <? 0) eqn:E; [reflexivity|lia].
+Qed.
+
+(* a refused request - BackendError, unknown command, syntax error - leaves the whole state as it was *)
+Theorem refused_changes_nothing o v s line :
+  match parse_message line with
+  | PMReq name args =>
+      match dispatch v name with
+      | Some c => forall m, handler o v c s args = HFail m ->
+                            parse_line o v s line = (s, OReply (reply_str name c_fail [m]))
+      | None => fst (parse_line o v s line) = s
+      end
+  | _ => fst (parse_line o v s line) = s
+  end.
+Proof.
+  unfold parse_line. destruct (parse_message line); try reflexivity.
+  destruct (dispatch v name); [|reflexivity]. intros m ->. reflexivity.
+Qed.
+
+(* ------------------------------------------------------------------------------------------ *)
+(* the hypotheses are satisfiable by non-trivial states *)
+
+Definition ex_oracle : oracle :=
+  mkOracle (fun _ => Some 7) (fun _ => FFin 3 2) (fun _ => TsFin 3000000)
+           (fun _ => zs "1000.0000000") (zs "25.0") (zs "50.0").
+
+Lemma ex_oracle_clean : oracle_clean ex_oracle.
+Proof. repeat split; try (intros; lit); lit. Qed.
+
+Definition ex_events : list event :=
+  map EByte (zs "?start,30000000000" ++ [13; 10] ++ zs "?stop,31000000000" ++ [13; 10] ++ zs "?sta").
+
+Example ex_reachable : reachable ex_oracle VGeneric 2048000 (fst (run ex_oracle VGeneric (init 2048000) ex_events)).
+Proof.
+  unfold ex_events. generalize (init 2048000) (reach_init ex_oracle VGeneric 2048000).
+  induction (map EByte _) as [|e r IH]; intros s Hs; [exact Hs|].
+  cbn [run]. destruct (step ex_oracle VGeneric s e) as [s1 x] eqn:E.
+  specialize (IH s1). destruct (run ex_oracle VGeneric s1 r). cbn [fst] in *. apply IH.
+  change s1 with (fst (s1, x)). rewrite <- E. constructor. assumption.
+Qed.
+
+Example ex_state_nontrivial :
+  let s := fst (run ex_oracle VGeneric (init 2048000) ex_events) in
+  List.length (timers s) = 2%nat /\ rbuf s <> [] /\ wstart s = true.
+Proof. vm_compute. repeat split; discriminate. Qed.
+
+Example ex_mistral_guard :
+  let s := fst (run ex_oracle VMistral (init 2048000) (map EByte (zs "?setup" ++ [13; 10]))) in
+  busy s = true /\ timers s = [mkTimer KSetup (2048000 + 60 * 2048) 0].
+Proof. vm_compute. split; reflexivity. Qed.
+
+(* C04 (backend): any reply emitted for any byte is a line of the reply grammar *)
+Lemma every_reply_wf o v s b s' r :
+  oracle_clean o -> Inv v s -> feed o v s b = (s', OReply r) ->
+  exists n c oa, reply_line r n c oa /\ code_of c.
+Proof.
+  intros Ho Hi H.
+  destruct (feed_obs o v s b s' _ Ho Hi H) as [[E | (r' & n & c & oa & E & P & Hc)] _]; [discriminate|].
+  injection E as ->. eauto.
+Qed.
